@@ -122,7 +122,7 @@ func (ex *Exec) intrinsic(caller *frame, fn *ssa.Function, args []value, pos tok
 		conds = append(conds, tc.Or(tc.SLt(x, tc.Int64(lo)), tc.SGt(x, tc.Int64(hi))))
 		k := ex.choose(conds)
 		if int64(k) > hi-lo {
-			panic(unsupported{"verifConcretize: value outside the stated range is feasible"})
+			panic(pathKill{"verifConcretize: outside the stated range (implicit assumption)"})
 		}
 		return tc.Int64(lo + int64(k)), true
 	case "verifStop":
